@@ -227,9 +227,9 @@ struct Exec {
     if constexpr (REP && BARCODE) {
       const int n = F.size(); if (n == 0) return;
       if constexpr (FAM == CHAIN) {
-        // known finding C08-KF2: the chain flavour walks the identifiers 0..n-1 and indexes its cycle table by identifier
+        // (fixed finding C08-KF2: the chain flavour walked the identifiers 0..n-1 and indexed its cycle table by identifier)
         bool contiguous = true; for (int k = 0; k < n; ++k) if (F.cells[k].id != k) contiguous = false;
-        if (!contiguous) { r.count("probe.cycles_with_custom_ids"); if (r.kf("C08-KF2")) { r.skipped(); return; } }
+        if (!contiguous) r.count("probe.cycles_with_custom_ids");
       }
       if constexpr (FAM == RU && Z2 && Opt::column_type == Column_types::VECTOR) {
         // known finding C08-KF3: lazily erased entries of VECTOR columns are still seen by the raw iteration of update_representative_cycles
